@@ -91,6 +91,16 @@ class C04(Prop):
             if not any(';c:' in x for x in a):
                 a.append(action(rng.choice('cs'), 'c:-'))
             out.append(pr_case('m%d' % k, a, wbs=rng.choice([0, 0, 1, 16]), max_=rng.choice([32, 40, 64, 200]), rbs=rng.choice([0, 64, 4096]), seed=rng.randint(0, 2**32 - 1), tail=8)); k += 1
+        # the echoed Close (long reason) fits the bound on its own but not beside data stuck behind a blocked transport
+        R100 = '61' * 100
+        for i in range(60 if quick else 2000):
+            closer = rng.choice('cs'); other = 's' if closer == 'c' else 'c'
+            a = [action(other, 'wb:' + '22' * rng.choice([20, 40, 60]), None, rng.choice([2, 3, 5])),
+                 action(closer, 'c:1000:' + R100), action(other, 'r', [1000], 0), action(other, 'r', [1000], 0)]
+            for _ in range(rng.randint(0, 4)):
+                sd = rng.choice('cs'); op = rng.choice(['r', 'f', 'wt:6869', 'r'])
+                a.insert(rng.randint(0, len(a)), action(sd, op, rng.choice(deliveries) if op == 'r' else None, rng.choice([0, 0, 2]) if op != 'r' else 0))
+            out.append(pr_case('lr%d' % k, a, wbs=rng.choice([0, 16]), max_=rng.choice([112, 120, 140, 170]), rbs=rng.choice([64, 4096]), seed=rng.randint(0, 2**32 - 1), tail=8)); k += 1
         return out
 
     def monitor(self, case_line, trace, mline):
